@@ -25,6 +25,7 @@ RULE = (
     "2 processes, outside or inside a user context after a few edits (then the context is left "
     "and the entry state must come back).  Non-trivial when the analysis solved >= 1 LP or raised; "
     "distinct by (analysis, model class, arguments hash, in/out context)."
+    " Every serial call is repeated with a failpoint on the solver: the k-th solve raises a solver error or comes back infeasible / undefined (quick: one kind per call, thorough: all three); flux arguments carrying NaN; MOMA / ROOM with one explicit reference per model state."  # third-session additions
 )
 ASSUMPTIONS = [
     "non-unique outputs (flux vectors, sample values, fastcc's choice among alternative optima) are not compared between the two calls",
